@@ -604,6 +604,7 @@ type vfResp struct {
 }
 
 type vfReqCtx struct {
+	started        time.Time // simulated instant at which the handler was entered (requests can take simulated seconds under storage faults)
 	req            *vfReq
 	truth          []vfClaim // factors really verified during this request (from the simulated backends)
 	pwChecks       []vfPwCheck
@@ -775,6 +776,7 @@ func (c *vfCall) exec() {
 		c.refused = true
 		return
 	}
+	c.ctx.started = time.Now()
 	w.setCtx(c.ctx)
 	func() {
 		defer func() {
